@@ -261,13 +261,8 @@ class Driver:
         return None
 
     def canon(self):
-        q = self.q
-        impl = (
-            q._in_flight,
-            tuple(sorted((h, s.in_flight, s.drained.is_set()) for h, s in q._connection_state.items())),
-            tuple(h for _, h in q._packets),
-            q.pending,
-        )
+        # every data attribute of the real queue, whatever it is called (waiting packets appear as (type name, handle))
+        impl = core.state_key(self.q)
         drains = tuple(sorted((h, t.done()) for h, t in self.drains))
         return (self.model.key(), impl, drains)
 
